@@ -16,6 +16,20 @@ func (ex *Exec) srcText(pos token.Pos) string {
 
 func (ex *Exec) safety(fr *Frame, kind string, pos token.Pos, pc, goal *Term) {
 	label := ex.srcText(pos)
+	if label == "?" && ex.curInstr != nil {
+		label = ex.curInstr.String()
+		if p := ex.curInstr.Parent(); p != nil {
+			// position of the closest preceding instruction with a position, for orientation
+			for _, in := range ex.curInstr.Block().Instrs {
+				if in == ex.curInstr {
+					break
+				}
+				if in.Pos().IsValid() {
+					pos = in.Pos()
+				}
+			}
+		}
+	}
 	ex.oblige(fr, "safety:"+kind, label, pos, pc, goal, ex.safetyProps)
 }
 
@@ -32,6 +46,17 @@ func (ex *Exec) assumeWF(st *State, pc *Term, v Value) {
 	switch x := v.(type) {
 	case VSlice:
 		b := C64(int64(SizeBound))
+		// built before the terms are registered as non-negative (the facts must reach the solver)
+		wf := And(SLe(C64(0), x.Len), SLe(x.Len, x.Cap), SLe(x.Cap, b), SLe(C64(0), x.Off), SLe(x.Off, b), less(x.Arr),
+			Implies(Eq(x.Arr, C64(0)), Eq(x.Cap, C64(0))))
+		// a type invariant of every slice value in a well-typed heap: assumed unconditionally
+		ex.assume(True, wf)
+		for _, t := range []*Term{x.Len, x.Off, x.Cap} {
+			if !t.IsConst() {
+				nonNeg[t] = true
+			}
+		}
+		return
 		ex.assume(pc, And(SLe(C64(0), x.Len), SLe(x.Len, x.Cap), SLe(x.Cap, b), SLe(C64(0), x.Off), SLe(x.Off, b), less(x.Arr),
 			Implies(Eq(x.Arr, C64(0)), Eq(x.Cap, C64(0)))))
 	case VPtr:
@@ -66,7 +91,7 @@ func (ex *Exec) loadObj(st *State, pc *Term, t types.Type, p *Term) Value {
 		for i, s := range ss {
 			ls[i] = Select(st.comp(eCompName(a.Elem(), i), ArrSort(BV64, ArrSort(BV64, s))), p)
 		}
-		return VArr{ls}
+		return VArr{ls, a.Len()}
 	}
 	ss := leafSorts(t)
 	ls := make([]*Term, len(ss))
@@ -262,6 +287,10 @@ func (ex *Exec) step(fr *Frame, st *State, pc *Term, instr ssa.Instruction) *Ter
 		} else {
 			p := ex.alloc(st, pc)
 			ex.storeObj(st, t, p, zeroValue(t))
+			if types.TypeString(t, nil) == "bytes.Buffer" {
+				// a new buffer is empty (ghost content used by the assumed Buffer/binary.Write contracts)
+				st.setComp(compBufLen, Store(st.comp(compBufLen, bufLenS), p, C64(0)))
+			}
 			fr.vals[x] = VPtr{T: p}
 		}
 	case *ssa.Store:
@@ -686,10 +715,18 @@ func (ex *Exec) valueEq(a, b Value) *Term {
 		}
 		return And(cs...)
 	case VArr:
+		// Go array equality: element-wise over the array's own index range
 		y := b.(VArr)
 		var cs []*Term
 		for i := range x.Leaves {
-			cs = append(cs, Eq(x.Leaves[i], y.Leaves[i]))
+			if x.N > 0 && x.N <= 64 {
+				for k := int64(0); k < x.N; k++ {
+					cs = append(cs, Eq(Select(x.Leaves[i], C64(k)), Select(y.Leaves[i], C64(k))))
+				}
+			} else {
+				k := Bound("k", BV64)
+				cs = append(cs, Forall([]*Term{k}, Implies(And(SLe(C64(0), k), SLt(k, C64(x.N))), Eq(Select(x.Leaves[i], k), Select(y.Leaves[i], k)))))
+			}
 		}
 		return And(cs...)
 	}
@@ -729,7 +766,7 @@ func (ex *Exec) convert(fr *Frame, st *State, pc *Term, v Value, from, to types.
 				return VOpaque{App("int2float", BV64, t)}
 			}
 			if tb.Info()&types.IsString != 0 {
-				return VStr{App("str.fromrune", StrSort, ZExt(x.T, 64))}
+				return VStr{App("gostr.fromrune", StrSort, ZExt(x.T, 64))}
 			}
 		}
 		if tb, ok := ut.(*types.Basic); ok && tb.Kind() == types.UnsafePointer {
